@@ -193,6 +193,58 @@ func (f *crashFam) Gen(r *hx.Run) {
 			r.Sample(map[string]interface{}{"case": c, "validators": n, "blocks": L})
 		}
 	}
+	if r.Thorough() {
+		f.longChain(r)
+	}
+}
+
+// fast emits one op that adds n honest empty blocks.
+func (g *chainGen) fast(n int) string {
+	ts0 := g.tss[len(g.tss)-1] + 1
+	parts := []string{"fast", fmt.Sprint(ts0), fmt.Sprint(g.lastCfg)}
+	for i := 0; i < n; i++ {
+		b := g.next(0)
+		b.ts = ts0 + uint32(i)
+		if _, err := b.materialize(false); err != nil {
+			panic(err)
+		}
+		parts = append(parts, b.hash)
+		g.committed(b)
+	}
+	return g.r.Do(strings.Join(parts, " "))
+}
+
+// longChain crosses the header-index batch boundary (HEADER_INDEX_BATCH_SIZE = 2000 block hashes are written as one
+// batch once that many are not yet stored) with crashes and restarts on both sides of it.
+func (f *crashFam) longChain(r *hx.Run) {
+	r.Case("crash-long")
+	g := &chainGen{r: r, w: &f.world}
+	if !okRes(g.genesis(4, "test", false, true, nil)) {
+		return
+	}
+	if !okRes(g.fast(1996)) {
+		return
+	}
+	for i := 0; i < 8; i++ {
+		b := g.next(1)
+		g.def(b)
+		k := i % 4
+		res := r.Do(fmt.Sprintf("crash %s %d", b.name, k))
+		if strings.HasPrefix(res, "crashed ok") {
+			r.Nontrivial(fmt.Sprintf("long/k%d/h%d", k, b.height))
+		}
+		if k == 0 {
+			r.Do("add " + b.name)
+		}
+		g.committed(b)
+	}
+	r.Do("reopen")
+	g.fast(5)
+	r.Do("reopen")
+	r.Do("obs")
+	for _, nm := range []string{"g", "f1", "f1000", "f1996", g.names[len(g.names)-7]} {
+		r.Do("get " + nm)
+	}
 }
 
 // ------------------------------------------------------------------------------------------------ C13
@@ -662,4 +714,14 @@ func (f *firstStartFam) Gen(r *hx.Run) {
 		r.Do("reopen")
 		r.Do("obs")
 	}
+}
+
+// crashlong: only the long chain across the header-index batch boundary (part of the thorough `crash` stream as well).
+type crashLongFam struct{ crashFam }
+
+func init() { families["crashlong"] = func() hx.Family { return &crashLongFam{} } }
+
+func (f *crashLongFam) Gen(r *hx.Run) {
+	r.Rule("one chain of 2009 blocks: 1996 honest empty blocks, then crashes at every point on both sides of the header-index batch boundary (height 2001 writes the first batch of 2000 hashes), restarts, lookups of old and new blocks; compared with an uncrashed twin and with the model")
+	f.longChain(r)
 }
